@@ -5,6 +5,7 @@ import ast
 import re
 
 from vk import astx, elect, facts, pairsym
+from vk.report import shape_rule
 from vk.algebra import Normalizer, NotClosedForm, bool_key, literals
 from vk.loader import AnalysisError
 from rules import c10
@@ -108,11 +109,13 @@ def _classify_ordering(prog, f, c, it, txt, key, pm):
     if it is None:
         return False, "no iterable"
     # (a) the equal-score grouping idiom: sorted(<score -> group>.items(), key=lambda x: x[0])
-    if nm == "sorted" and isinstance(key, ast.Lambda) and astx.u(key.body) == f"{key.args.args[0].arg}[0]" and astx.u(it).endswith(".items()"):
+    from vk import accum
+    if nm == "sorted" and key is not None and accum.is_first_component_key(key) and astx.u(it).endswith(".items()"):
         grp = astx.u(it)[: -len(".items()")]
-        gd = astx.unique_def(f.node, grp)
-        if isinstance(gd, ast.DictComp) and astx.u(gd.generators[0].iter).endswith(".values()") and astx.is_name(gd.key, gd.generators[0].target.id):
-            return True, "grouping idiom: groups keyed by score, sorted by the score alone"
+        gs = [g for g in accum.groupings(f.node) if g.dict_name == grp]
+        if len(gs) == 1 and astx.u(gs[0].loop.iter).endswith(".items()") and isinstance(gs[0].loop.target, ast.Tuple) and len(gs[0].loop.target.elts) == 2 \
+                and gs[0].key == astx.u(gs[0].loop.target.elts[1]) and gs[0].member == astx.u(gs[0].loop.target.elts[0]):
+            return True, "grouping idiom: candidates grouped under their score (the mapping's value), groups sorted by the score alone"
         return False, "sorted by first component of items whose keys are not provably scores"
     # (b) key is a size: len(x)
     if isinstance(key, ast.Lambda) and re.fullmatch(rf"len\({key.args.args[0].arg}\)", astx.u(key.body)):
@@ -192,9 +195,18 @@ def _picks(f):
                 out.append((n, dv.args[0], "X = list(S); X[k]"))
         elif isinstance(n, ast.Call) and astx.u(n.func) == "next" and n.args and isinstance(n.args[0], ast.Call) and astx.u(n.args[0].func) == "iter":
             out.append((n, n.args[0].args[0], "next(iter(S))"))
-        elif isinstance(n, ast.Call) and isinstance(n.func, ast.Attribute) and n.func.attr == "pop" and not n.args and _maybe_set(n.func.value):
+        elif isinstance(n, ast.Call) and isinstance(n.func, ast.Attribute) and n.func.attr == "pop" and not n.args and _maybe_set(n.func.value) \
+                and not _is_list_local(f, n.func.value):
             out.append((n, n.func.value, "S.pop()"))
     return out
+
+
+def _is_list_local(f, e):
+    """A local every binding of which is a list (display, list(...), list comprehension): pop() takes its LAST element."""
+    if not isinstance(e, ast.Name):
+        return False
+    ds = astx.defs_of(f.node, e.id)
+    return bool(ds) and all(isinstance(dv, (ast.List, ast.ListComp)) or (isinstance(dv, ast.Call) and astx.u(dv.func) == "list") for _, dv in ds)
 
 
 def _maybe_set(e):
@@ -250,6 +262,7 @@ def _singleton_proof(prog, f, node, S, pm):
     return None
 
 
+@shape_rule
 def r2_positional_picks(ctx):
     prog = ctx.prog
     n = 0
@@ -372,6 +385,7 @@ def _origin(prog, f, e, depth=0, at=None):
     return None
 
 
+@shape_rule
 def r4_recorded_order(ctx):
     prog = ctx.prog
     n = 0
